@@ -1400,7 +1400,14 @@ def run(ctx):
     ctx.rule = ("a case is an operation history (new / query[count, paths, ordered ids, instance for a vector, instance for a unit "
                 "vector, all_paths, info, models_with_type] / freeze / unfreeze / setattr (incl. self-reference) / Collection.__setitem__ "
                 "(new and existing keys) / append / delattr / deepcopy and pickle round trip / prior passing (mapper_from_prior_arguments) / "
-                "failing walk call) over a heap of Model, Collection and TuplePrior objects with shared children and several roots; modes: "
+                "failing walk call / the exact return value of each of the seven frozen_cache functions (query raw) / a caller editing a "
+                "returned list (scramble)) over a heap of Model, Collection and TuplePrior objects with shared children and several roots; "
+                "the four component classes of a history get their constructor signatures from a pool, may share one __name__/__qualname__/"
+                "__module__ (distinct class objects, as from a class factory) and may derive from each other; prior ids are handed out in "
+                "an order different from the traversal order; the compared replay contains the history and nothing else (the shadow deep "
+                "copies run in a second replay, because copying / thawing advances the modification counter); modes: "
+                "'alias' (the caller reverses / shortens lists a frozen model returned; oracle only, known finding "
+                "returned-list-edited-by-caller until proposed_fixes/C13-frozen-cache-returns-copy is applied), "
                 "'clean' (nothing is attempted below a frozen object), 'stale' (modifications, deletions, tuple members and thawed "
                 "components below frozen ancestors), 'ids' (item assignment of shared priors over existing keys), 'poison' (failing "
                 "calls); since 29fc8b9 no mode has a finding label and every history is checked against the full theorem; a case is "
@@ -1415,6 +1422,12 @@ def run(ctx):
         "model.info is checked to be a function of the compared lists by re-rendering in the driver",
     ]
     ctx.assumptions = [
+        "classes are abstract identities (index of the class table): two classes of one name are two classes; the process-wide "
+        "constructor-argument memo is modelled separately (ClassArgs.v) and compared through constructor_argument_names observed at "
+        "every composed Model and every query on a Model; class names are private to a history (suffix), so reuse of names or of "
+        "id(cls) ACROSS histories of one driver process is exercised but not replayable; the database form names classes by import "
+        "path and is not generated for models of a class whose name an earlier class of the history carries; a class with subclasses "
+        "is not used as the models_with_type filter",
         "the walk is modelled with fuel 12 (object graphs deeper than 12 are outside the model; generated graphs have depth <= 6; "
         "C13_freeze_reaches_descendants carries the success of freeze as a hypothesis); only direct self-references are generated as cycles",
         "Python object identity is an abstract object id; reuse of id() values after garbage collection is not modelled "
@@ -1530,12 +1543,18 @@ MANIFEST = {
     "text": "Coq 8.16 theorems over an executable heap model of Model/Collection/TuplePrior objects with frozen_cache (incl. the "
             "modification counter), assert_not_frozen on setattr/delattr/append/setitem/remove, recursive freeze/unfreeze reaching "
             "tuple priors, deepcopy, prior passing, item assignment and the process-wide recursion cache: for the code as it is, "
-            "every query of EVERY history equals the uncached query on the current composition (C13_coherent_full, no guard); freeze "
+            "every query of EVERY history -- including the raw return value, in its own order, of each of the seven frozen_cache "
+            "functions (QRaw) -- equals the uncached query on the current composition (C13_coherent_full, no guard); the process-wide "
+            "constructor-argument memo keyed by the class object has no history effects, a key is sound iff it separates classes with "
+            "different constructors, and a name-keyed memo leaks as soon as two composed classes share the name (C13_class_args_*); freeze "
             "reaches every Model/Collection/TuplePrior descendant, which then reject assignment and deletion; setattr / setitem are "
             "local; prior passing is a query; the six former defects are kept as legacy refutations and pinned as regression "
             "histories; plus vm_compute correspondence of the model with the running code on generated histories and a direct "
             "oracle against a cache-free reference",
     "note": "Trusted: Coq kernel + vm_compute, the abstraction in harness/vcheck/c13.py and harness/impl/c13_impl.py. Object identity is "
-            "abstract (id() reuse not modelled), walk fuel 12, info is compared through the lists it is rendered from.",
+            "abstract (id() reuse not modelled), walk fuel 12, info is compared through the lists it is rendered from. Cached results are "
+            "values in the model (no aliasing): a caller that edits a list returned by a frozen model changes its later answers in the code "
+            "as it is (known finding returned-list-edited-by-caller, repair proposed: frozen_cache returns a copy); those histories are "
+            "oracle-only. Class tables vary per history (shared names, subclasses, permuted / sub- / superset constructor signatures).",
     "technique": "machine-checked proof in Coq (state-machine model, invariant) + vm_compute correspondence",
 }
